@@ -45,6 +45,18 @@ func genC03() *rapid.Generator[Case] {
 			}
 			if c.Cfg.Mode != 2 && rapid.IntRange(0, 11).Draw(t, "merge") == 5 {
 				c.Steps = append(c.Steps, Step{K: "merge"})
+				if clk != nil && len(clk.Exp) > 0 && rapid.Bool().Draw(t, "expireall") {
+					// after the Merge the clock passes every expiry instant stamped so far: what Merge rewrote expires
+					// when the original record would have
+					far := clk.Now
+					for _, x := range clk.Exp {
+						if x > far {
+							far = x
+						}
+					}
+					clk.Now = far + 1
+					c.Steps = append(c.Steps, Step{K: "clock", T: clk.Now})
+				}
 			}
 			if rapid.IntRange(0, 9).Draw(t, "wipe") == 6 {
 				// every key of the universe deleted in one transaction (the bucket's count of valid keys reaches 0),
